@@ -5,7 +5,8 @@ N=$1
 python3 - "$N" <<'PY'
 import json,sys,subprocess,os
 n=sys.argv[1]
-tpl=open('/verif/tools/seedprompt.txt').read()
+import os.path
+tpl=open("/verif/tools/seedprompt%s.txt"%n if os.path.exists("/verif/tools/seedprompt%s.txt"%n) else "/verif/tools/seedprompt.txt").read()
 for l in open('/verif/properties.jsonl'):
     p=json.loads(l); i=p['id']
     wt=f'/tmp/wt{n}-{i}'; out=f'/tmp/seeded-out{n}/{i}'
